@@ -15,7 +15,7 @@ import warnings
 
 import numpy as np
 
-from lib.kinds import Kind
+from lib.kinds import Kind, HarnessError
 from lib import core
 from translate import common as C
 
@@ -680,4 +680,162 @@ class AccKind(Kind):
                 yield dict(case, ops=ops[:i] + [['update', op[1][:len(op[1]) // 2]]] + ops[i + 1:])
 
 
-KINDS = [TTestKind(), AccKind()]
+# ------------------------------------------------------------------------------------------------ large trace counts
+
+LARGE_N = [33025, 40000, 65536, 70000, 131072, 200000]
+HIGH = {'uint8': [255, 254, 250, 200, 129], 'int8': [-128, -127, 127, 126, -100], 'int16': [32767, -32768, 32766, -32767, 30000]}
+
+
+def _rl_runs(rng, dtype, n, w, nruns):
+    """n rows as nruns runs (row, count): high-valued samples, counts >= 1 summing to n."""
+    cuts = sorted(rng.sample(range(1, n), nruns - 1)) if nruns > 1 else []
+    counts = [b - a for a, b in zip([0] + cuts, cuts + [n])]
+    vals = HIGH[dtype]
+    runs = []
+    for i, c in enumerate(counts):
+        row = [vals[0] if (i == 0 and j == 0) else rng.choice(vals) for j in range(w)]
+        runs.append([row, c])
+    big = max(range(nruns), key=lambda i: counts[i])          # the longest run sits at the extreme value
+    runs[big][0][0] = vals[0]
+    return runs
+
+
+def _rl_expand(runs, dtype):
+    rows = np.array([r[0] for r in runs], dtype=dtype)
+    counts = np.array([r[1] for r in runs], dtype='int64')
+    a = np.repeat(rows, counts, axis=0)
+    pos = 0
+    for r in runs:      # the array handed to the code is the expansion of the runs (integer comparison)
+        if not (a[pos:pos + r[1]] == np.array(r[0], dtype=dtype)).all():
+            raise HarnessError('C09 harness: expanded array does not match the runs')
+        pos += r[1]
+    if a.shape != (int(counts.sum()), len(runs[0][0])):
+        raise HarnessError('C09 harness: wrong expanded shape')
+    return np.ascontiguousarray(a)
+
+
+class LargeNKind(Kind):
+    name = 'ttest_large_n'
+    header = HDR
+    case_type = 'rl_case'
+    check_fn = 'rl_check'
+    explain_fn = 'rl_expected'
+    shard = 8
+    rule = ('n = 33025, 40000, 65536, 70000, 131072, 200000 traces of high-valued uint8 / int8 / int16 samples (255, -128, 32767 ...) '
+            'x 1-2 samples, rows run-length encoded (row, repetitions) and evaluated as weighted sums inside Coq '
+            '(Props/C09.run_length_spec_is_the_spec); fed as ONE batch and as 2-3 batches, through TTestThreadAccumulator.update '
+            'directly and through TTestAnalysis.run with scared.set_batch_size raised to n (restored); float64: sum / sum_squared '
+            'exact, mean / var / result within 16 u; float32: conditioning tolerance; integer intermediates or counters that '
+            'overflow at large batch or trace counts are visible here only')
+
+    def gen(self, rng, tier):
+        reps = 1 if tier == 'quick' else 3
+        i = 0
+        for rep in range(reps):
+            for n in LARGE_N:
+                for dtype in ('uint8', 'int8', 'int16'):
+                    i += 1
+                    w = 1 + (i % 2)
+                    mode = 'update' if (i + rep) % 2 else 'analysis'
+                    nb = [1, 2, 3][(i // 2 + rep) % 3]
+                    prec = 'float64' if (i + rep) % 4 else 'float32'
+                    set1 = _rl_runs(rng, dtype, n, w, rng.randint(1, 4))
+                    if mode == 'analysis':
+                        n2 = rng.choice([rng.randint(3, 2000), rng.choice(LARGE_N)])
+                        set2 = _rl_runs(rng, dtype, n2, w, rng.randint(2, 4))
+                        big = max(n, n2)
+                        bs = big if nb == 1 else (big + nb - 1) // nb
+                        splits = None
+                    else:
+                        set2 = []
+                        bs = None
+                        if nb == 1:
+                            splits = [n]
+                        else:
+                            cuts = sorted(rng.sample(range(1, n), nb - 1))
+                            splits = [b - a for a, b in zip([0] + cuts, cuts + [n])]
+                    yield {'prec': prec, 'dtype': dtype, 'width': w, 'mode': mode, 'set1': set1, 'set2': set2, 'bs': bs, 'splits': splits}
+
+    def run(self, case):
+        import scared
+        import estraces
+        from scared.ttest import TTestThreadAccumulator
+        a1 = _rl_expand(case['set1'], case['dtype'])
+        o = {}
+        with warnings.catch_warnings(), np.errstate(all='ignore'):
+            warnings.simplefilter('ignore')
+            if case['mode'] == 'update':
+                acc = TTestThreadAccumulator(precision=np.dtype(case['prec']))
+                pos = 0
+                for b in case['splits']:
+                    acc.update(a1[pos:pos + b])
+                    pos += b
+                acc.compute()
+                accs = [acc]
+            else:
+                a2 = _rl_expand(case['set2'], case['dtype'])
+                an = scared.TTestAnalysis(precision=case['prec'])
+                cont = scared.TTestContainer(estraces.read_ths_from_ram(samples=a1), estraces.read_ths_from_ram(samples=a2))
+                try:
+                    scared.set_batch_size(int(case['bs']))
+                    an.run(cont)
+                finally:
+                    scared.set_batch_size(None)
+                accs = an.accumulators
+                o['result'] = _floats(an.result)
+        for i, acc in enumerate(accs, 1):
+            o[f'n{i}'] = int(acc.processed_traces)
+            for name, key in (('sum', 'sum'), ('sum_squared', 'sq'), ('mean', 'mean'), ('var', 'var')):
+                o[f'{key}{i}'] = _floats(getattr(acc, name))
+        o['batch_size_restored'] = scared.Container._BATCH_SIZE is scared.container._ORIGINAL_BATCH_SIZES
+        return o
+
+    @staticmethod
+    def _runs(runs):
+        return '[' + '; '.join('(%s, %d%%positive)' % (_zl(r[0]) + '%Z', r[1]) for r in runs) + ']'
+
+    def coq(self, case, obs):
+        g = lambda k: _fl(obs.get(k, []))      # noqa: E731
+        return ('{| rl_prec := %s; rl_width := %s; rl_set1 := %s; rl_set2 := %s; '
+                'rl_n1 := %s; rl_sum1 := %s; rl_sq1 := %s; rl_mean1 := %s; rl_var1 := %s; '
+                'rl_n2 := %s; rl_sum2 := %s; rl_sq2 := %s; rl_mean2 := %s; rl_var2 := %s; rl_result := %s |}' % (
+                    _prec(case['prec']), C.coq_nat(case['width']), self._runs(case['set1']), self._runs(case['set2']),
+                    C.coq_z(obs.get('n1', -1)), g('sum1'), g('sq1'), g('mean1'), g('var1'),
+                    C.coq_z(obs.get('n2', 0)), g('sum2'), g('sq2'), g('mean2'), g('var2'), g('result')))
+
+    def oracle(self, case, obs):
+        if 'raised' in obs:
+            return f'large-n run raised {obs["raised"]}: {obs["msg"]}'
+        if not obs.get('batch_size_restored', True):
+            return 'batch size not restored'
+        return None
+
+    def nontrivial(self, case, obs):
+        return 'raised' not in obs
+
+    def features(self, case, obs):
+        n = sum(r[1] for r in case['set1'])
+        return {'n': n, 'dtype': case['dtype'], 'prec': case['prec'], 'mode': case['mode'],
+                'batches': len(case['splits']) if case['splits'] else -(-max(n, sum(r[1] for r in case['set2'])) // case['bs'])}
+
+    def tags(self, case, obs):
+        return ['ttest_large_n']
+
+    def sample(self, case, obs):
+        return {'case': case, 'observed': {k: obs.get(k) for k in ('n1', 'sum1', 'sq1', 'n2', 'result')}}
+
+    def shrink(self, case):
+        w = case['width']
+        if w > 1:
+            for j in range(w):
+                yield dict(case, width=1, set1=[[[r[0][j]], r[1]] for r in case['set1']], set2=[[[r[0][j]], r[1]] for r in case['set2']])
+        if case['mode'] == 'update' and len(case['splits']) > 1:
+            yield dict(case, splits=[sum(case['splits'])])
+        for key in ('set1', 'set2'):
+            runs = case[key]
+            for i in range(len(runs) - 1):      # merge neighbouring runs (keeps n)
+                merged = runs[:i] + [[runs[i][0], runs[i][1] + runs[i + 1][1]]] + runs[i + 2:]
+                yield dict(case, **{key: merged})
+
+
+KINDS = [TTestKind(), AccKind(), LargeNKind()]
